@@ -327,6 +327,33 @@ impl Vfs {
             }
         }
     }
+    // the caller's loop: bs[0] is the VFS right after restore_from_bytes, bs[i+1] the VFS after restore_mount of the backend recorded for the
+    // mount point ks[i] of `a` (each mount point once, in any order; es[i] = what that backend's mount() returned, with the root number it had)
+    spec fn restore_steps(a: Vfs, bs: Seq<Vfs>, ks: Seq<u64>, es: Seq<Entry>, fs: Seq<Arc<BackFileSystem>>) -> bool {
+        &&& bs.len() == ks.len() + 1 && es.len() == ks.len() && fs.len() == ks.len() && ks.no_duplicates()
+        &&& forall|i: int| 0 <= i < ks.len() ==> a.mp().contains_key(#[trigger] ks[i]) && es[i].inode == a.mp()[ks[i]].ino
+                && Vfs::post_restore_mount(bs[i], bs[i + 1], a.mp()[ks[i]].fs_idx, ks[i], es[i], fs[i])
+    }
+    proof fn lemma_restore_all(a: Vfs, bs: Seq<Vfs>, ks: Seq<u64>, es: Seq<Entry>, fs: Seq<Arc<BackFileSystem>>, n: int)
+        requires a.inv(), bs[0].inv(), Vfs::agree_on(a, bs[0], Set::<u64>::empty()), Vfs::restore_steps(a, bs, ks, es, fs), 0 <= n <= ks.len()
+        ensures bs[n].inv(), Vfs::agree_on(a, bs[n], ks.take(n).to_set()),               // [C19.indist.induction]
+        decreases n
+    {
+        if n == 0 { assert(ks.take(0).to_set() =~= Set::<u64>::empty()); }
+        else {
+            Vfs::lemma_restore_all(a, bs, ks, es, fs, n - 1);
+            let t1 = ks.take(n - 1); let t2 = ks.take(n); let s = t1.to_set(); let kn = ks[n - 1];
+            assert(!s.contains(kn)) by { if s.contains(kn) { let j = choose|j: int| 0 <= j < t1.len() && #[trigger] t1[j] == kn; assert(ks[j] == kn); } }
+            Vfs::lemma_agree_step(a, bs[n - 1], bs[n], s, kn, es[n - 1], fs[n - 1]);
+            assert(t2.to_set() =~= s.insert(kn)) by {
+                assert forall|k: u64| t2.to_set().contains(k) <==> s.insert(kn).contains(k) by {
+                    if t2.to_set().contains(k) { let j = choose|j: int| 0 <= j < t2.len() && #[trigger] t2[j] == k; if j < n - 1 { assert(t1[j] == k); } }
+                    if s.contains(k) { let j = choose|j: int| 0 <= j < t1.len() && #[trigger] t1[j] == k; assert(t2[j] == k); }
+                    if k == kn { assert(t2[n - 1] == k); }
+                }
+            }
+        }
+    }
     // conclusion: once every mount point of `a` is re-attached, every inode number routes in `b` as it did in `a` (same backend index, same
     // backend inode number, or the same pseudo inode, or vacant in both) and every index has the same effective id mapping
     proof fn lemma_indistinguishable(a: Vfs, b: Vfs)
@@ -486,12 +513,14 @@ def unit(root='/repo'):
                     'res is Ok ==> Vfs::post_restore_mount(*old(self), *final(self), fs_idx, old(self).root.mount_ino(path@), fs.res_mount()->Ok_0.0, Arc::new(fs)) // [C19.restore_mount.post]',
                     # re-attaching at a VACANT recorded index keeps the table invariant the routing proofs rest on (an occupied index or index 0 is the caller's error: not refused by the code)
                     'res is Ok && old(self).inv() && old(self).sb()[fs_idx as int] is None ==> final(self).inv() // [C19.restore_mount.inv]'],
-           splices=[('self.insert_mount_locked(fs, entry, fs_idx, path)', 'before', '''proof {
-            let o = *self; let pino = self.root.mount_ino(path@);
-            assert forall|n: Vfs, f: Arc<BackFileSystem>| o.inv() && o.sb()[fs_idx as int] is None && #[trigger] Vfs::post_restore_mount(o, n, fs_idx, pino, entry, f) implies n.inv() by {
-                Vfs::lemma_restore_mount_keeps_inv(o, n, fs_idx, pino, entry, f);
+           # the tail call is bound to a name so that the lemma can be applied to the state it leaves (same value returned)
+           splices=[('self.insert_mount_locked(fs, entry, fs_idx, path)', 'replace', '''let res_ = self.insert_mount_locked(fs, entry, fs_idx, path);
+        proof {
+            if res_ is Ok && old(self).inv() && old(self).sb()[fs_idx as int] is None {
+                Vfs::lemma_restore_mount_keeps_inv(*old(self), *self, fs_idx, old(self).root.mount_ino(path@), entry, Arc::new(fs));    // [C19.restore_mount.inv]
             }
-        }''')]),
+        }
+        res_''')]),
     ]))
     unit_ = Unit('vfspersist', items, preludes=u.preludes, generic_tags={'cap': ['C19'], 'touch': ['C19'], 'ids': ['C19'], 'snapver': ['C19']})
     unit_.prelude_subst = u.prelude_subst
